@@ -1,8 +1,6 @@
 package mxj
 
 func init() {
-	vHarnesses["H_C18_step"] = H_C18_step
-	vHarnesses["H_C18_restore"] = H_C18_restore
 	vHarnesses["H_C18_history"] = H_C18_history
 	vHarnesses["H_C18_noninterference"] = H_C18_noninterference
 }
@@ -152,134 +150,6 @@ func vCallSetter(i int, form int, b bool, s string) {
 			SetArraySize(1)
 		}
 	}
-}
-
-// vExpectStep: the documented effect of setter i on a snapshot (pure function of the
-// statement: explicit form sets, argument-less form toggles - disables trimming for the
-// white-space switch, resets the field separator; the two escaping switches exclude each
-// other; nothing else changes).
-func vExpectStep(s vOptState, i int, form int, b bool, arg string) vOptState {
-	tog := func(cur bool) bool {
-		if form == 0 {
-			return b
-		}
-		return !cur
-	}
-	switch i {
-	case 0:
-		s.attrPrefix, s.lenAttrPrefix = arg, len(arg)
-	case 1:
-		if b {
-			s.attrPrefix, s.lenAttrPrefix = "-", 1
-		} else {
-			s.attrPrefix, s.lenAttrPrefix = "", 0
-		}
-	case 2:
-		s.includeTagSeqNum = tog(s.includeTagSeqNum)
-	case 3:
-		s.lowerCase = tog(s.lowerCase)
-	case 4:
-		if form == 0 {
-			s.disableTrimWhiteSpace = b
-		} else {
-			s.disableTrimWhiteSpace = true
-		}
-		if s.disableTrimWhiteSpace {
-			s.trimRunes = "\t\r\b\n"
-		} else {
-			s.trimRunes = "\t\r\b\n "
-		}
-	case 5:
-		s.snakeCaseKeys = tog(s.snakeCaseKeys)
-	case 6:
-		s.castToInt = tog(s.castToInt)
-	case 7:
-		s.handleXMPPStreamTag = tog(s.handleXMPPStreamTag)
-	case 8:
-		s.decodeSimpleValuesAsMap = tog(s.decodeSimpleValuesAsMap)
-	case 9:
-		s.castNanInf = tog(s.castNanInf)
-	case 10:
-		s.castToFloat = tog(s.castToFloat)
-	case 11:
-		s.castToBool = tog(s.castToBool)
-	case 12:
-		s.skipFuncSet = b
-	case 13:
-		s.useGoXmlEmptyElemSyntax = b
-	case 14:
-		s.xmlCheckIsValid = tog(s.xmlCheckIsValid)
-	case 15:
-		want := tog(s.xmlEscapeChars)
-		s.xmlEscapeChars = want && !s.xmlEscapeCharsDecoder
-	case 16:
-		s.xmlEscapeCharsDecoder = tog(s.xmlEscapeCharsDecoder)
-		if s.xmlEscapeCharsDecoder {
-			s.xmlEscapeChars = false
-		}
-	case 17:
-		p := arg[:1]
-		s.textK, s.seqK, s.commentK, s.attrK = p+"text", p+"seq", p+"comment", p+"attr"
-		s.directiveK, s.procinstK, s.targetK, s.instK = p+"directive", p+"procinst", p+"target", p+"inst"
-	case 18:
-		s.useDotNotation = tog(s.useDotNotation)
-	case 19:
-		if form == 0 {
-			s.fieldSep = arg[:1]
-		} else {
-			s.fieldSep = ":"
-		}
-	default:
-		if b {
-			s.defaultArraySize = 40
-		} else {
-			s.defaultArraySize = 32
-		}
-	}
-	return s
-}
-
-// (a) inductive step: from ANY state satisfying the invariant, one setter call has exactly
-// its documented effect, preserves the invariant and is idempotent for explicit arguments
-func H_C18_step() {
-	vNondetOptState()
-	pre := vSnapOpts()
-	vAssume(vInvOpts(pre))
-	i := vChoose(vNumSetters)
-	form := vChoose(2)
-	b := vNondetBool()
-	var arg string
-	switch i {
-	case 0:
-		arg = vNondetString(0, 2, "-@a")
-	case 17:
-		arg = vNondetString(1, 1, "#_%@")
-	default:
-		arg = vNondetString(1, 1, ":|;")
-	}
-	vCallSetter(i, form, b, arg)
-	post := vSnapOpts()
-	want := vExpectStep(pre, i, form, b, arg)
-	vAssert(post == want, "options: a setter has exactly its documented effect and changes no other option")
-	vAssert(vInvOpts(post), "options: every setter preserves the consistency of the option state")
-	if form == 0 {
-		vCallSetter(i, form, b, arg)
-		vAssert(vSnapOpts() == post, "options: a setter called with an explicit value is idempotent")
-		vCover("explicit")
-	} else {
-		vCover("argless")
-	}
-	vRestoreDefaults()
-}
-
-// (b) from ANY consistent state the restore sequence yields exactly the initial state
-func H_C18_restore() {
-	initial := vSnapOpts()
-	vNondetOptState()
-	vAssume(vInvOpts(vSnapOpts()))
-	vRestoreDefaults()
-	vAssert(vSnapOpts() == initial, "options: setting every option back to its default restores the state of a fresh process")
-	vCover("restore")
 }
 
 func vProbe() (string, string, string) {
